@@ -92,9 +92,9 @@ Proof. vm_compute. repeat split; reflexivity. Qed.
 Example cx_final_accepted :
   let tr := trace_of (crash_prog cx_items cx_xml) in
   match open_result (crash_image tr (length tr) 0) with
-  | Ok (_, _, x) => match xml_parse x with ParseOk d => xdoc_eqb d (tree_of xg_example) | _ => false end
-  | _ => false
-  end = true.
+  | Ok (_, _, x) => xml_parse x
+  | _ => ParseErr
+  end = ParseOk (tree_of xg_example).
 Proof. vm_compute. reflexivity. Qed.
 
 Example cx_theorem_applies : forall (n cut : nat) s h x d',
